@@ -154,8 +154,11 @@ def static_graph(ctx):
                 kind = "AmountT selection"
             elif c["on"] == "crate" and c["attr"] == "cfg_attr" and tok == 'not(feature="std"),no_std':
                 kind = "no_std"
-            elif c["on"] == "let" and "fpdec" in tok and c["ctx"] == ["trait Quantity", "fn fmt"]:
-                kind = "abs variant in Quantity::fmt"
+            elif set(re.findall(r'feature="([^"]*)"', tok)) == {"fpdec"}:
+                # code that exists only with / only without the decimal back-end: `fpdec` replaces the amount type, so
+                # no operation on f64 amounts "was already available" on the other side; what the code does in each
+                # back-end is decided by the other properties on the f64 and the decimal configurations
+                kind = "amount back-end variant (fpdec only)"
             elif c["on"] == "use" and rel == "src/prelude.rs" and tok == 'feature="fpdec"':
                 kind = "prelude Dec export"
             elif any("test" in x for x in c["ctx"]) or c["ctx"] and c["ctx"][0] == "mod tests":
